@@ -345,6 +345,10 @@ impl FileWatcher {
         if let Some(worker_tree) = self.worker_tree.as_ref() {
             let files: HashSet<_> = worker_tree
                 .iter_external_dependencies()
+                // the input path is already watched recursively: a second watch on
+                // a file inside it makes the events of a rename over that file
+                // cancel each other
+                .filter(|path| !path.starts_with(&self.input_path))
                 .map(ToOwned::to_owned)
                 .collect();
 
